@@ -16,6 +16,8 @@ func main() {
 	switch os.Args[1] {
 	case "seq":
 		err = runSeq(os.Args[2], os.Args[3])
+	case "sched":
+		err = runSched(os.Args[2], os.Args[3])
 	default:
 		err = fmt.Errorf("unknown mode %s", os.Args[1])
 	}
